@@ -184,7 +184,7 @@ def _(u):
     depot_tour_reward_unit(u, F, "CVRPTWEnv._get_reward", "CVRPTWEnv")
 
 
-@unit("cvrptw.rowlocal.step", file=F, func="CVRPTWEnv._step", props=("C04",))
+@unit("cvrptw.rowlocal.step", file=F, func="CVRPTWEnv._step", props=("C04", "C14"))
 def _(u):
     N = u.dim("N")
     env = u.obj(F, "CVRPTWEnv")
@@ -202,7 +202,7 @@ def _(u):
     rowlocal(u, "step", mk_in, lambda u, td: u.run(F, "CVRPTWEnv._step", td, selfobj=env), requires=req)
 
 
-@unit("cvrptw.rowlocal.mask", file=F, func="CVRPTWEnv.get_action_mask", props=("C04",))
+@unit("cvrptw.rowlocal.mask", file=F, func="CVRPTWEnv.get_action_mask", props=("C04", "C14"))
 def _(u):
     N = u.dim("N")
 
